@@ -376,6 +376,21 @@ def run(ctx):
                                      "kf": None, "input": {"config": cname, "fl": f, "detail": bad}})
     H.under_every_config(_cfg_pass)
 
+    # -------------------------------------------------- binary-leg histories
+    # text -> bytes -> decode -> print, the decoded objects edited in place, the same bytes decoded again
+    # (long-lived Deserializer, fresh one, module-level deserialize()): same text, same bytes
+    from netqasm.lang.parsing.binary import Deserializer as _Des
+    keepers = {f: _Des(H.FLAVOURS[f]()) for f in H.FLAVOURS}
+    for t in range(2000 if thorough else 400):
+        fname = rng.choice(list(H.FLAVOURS))
+        desc, prob = X.binary_leg_history(fname, rng, keepers[fname])
+        res.evaluations += 1
+        res.count("binary-leg-history")
+        res.nontrivial.add(("binleg", fname, json.dumps(desc, sort_keys=True, default=str)[:1500]))
+        if prob is not None:
+            res.failures.append({"what": "binary-leg history: " + prob["what"], "kf": None,
+                                 "input": dict(desc, detail=prob)})
+
     # -------------------------------------------------- stream P: parser histories
     # parse(text) must be a function of the text only: parse, edit the parsed objects in place (operand
     # objects with their nested registers / addresses, operand fields, instruction lists), parse the same
